@@ -13,7 +13,10 @@ from harness import stmt_wire as SW
 
 META_PART = "statement layer: Coq model of declaration/assignment/control-flow translation (Lang/Stmt*.v) with a simulation theorem; tie = IR of the real parser vs model on generated programs; oracle = firmware trace vs CPython trace"
 
-FEATURE_SETS = [(), ("float",), ("funcs",), ("tuple",), ("float", "funcs", "tuple"), ("branch_first",)]
+FEATURE_SETS = [(), ("float",), ("funcs",), ("tuple",), ("float", "funcs", "tuple"), ("branch_first",),
+                # `continue` (repaired defect F-C01-continue-dropped): outside the Coq statement fragment (Lang/StmtAst.v has no
+                # continue constructor), so these programs reach the firmware-vs-CPython trace oracle only
+                ("continue",), ("continue", "float", "funcs", "tuple")]
 
 WITNESSES = {
     "F-C01-continue-dropped": {
@@ -55,6 +58,31 @@ CORPUS = [
              ("write", "i1"), ("write", "i2"), ("assign", "i3", "0"), ("for", "k0", "5", [("assign", "i3", "(i3 + k0)")]),
              ("tuple", ["i4", "i5"], ["(i3 - 5)", "(i3 * 2)"]), ("write", "(i4 + i5)")],
      "main": [("assign", "i0", "(i0 + 1)"), ("if", [("(i1 < i0 < i2)", [("write", "i2")])], [("write", "i4")])]},
+    # `continue` (repaired; oracle only): the former witness; for-range (the C loop still advances its variable); while (the
+    # condition is re-tested); under nested ifs; in an else arm; in the inner of two loops; in the body of the main loop,
+    # directly under an if, under nested ifs and inside a for loop of the main loop (there it continues the for loop only)
+    {"pre": [("for", "k0", "4", [("if", [("(k0 == 2)", [("continue",)])], []), ("write", "k0")])], "main": None},
+    {"pre": [("assign", "i0", "0"), ("for", "k0", "5", [("if", [("(k0 % 2 == 0)", [("continue",)])], []), ("assign", "i0", "(i0 + k0)"), ("write", "i0")]),
+             ("write", "i0")], "main": None},
+    {"pre": [("assign", "w0", "0"), ("assign", "i0", "0"),
+             ("while", "(w0 < 6)", [("assign", "w0", "(w0 + 1)"), ("if", [("(w0 == 2)", [("write", '"skip"'), ("continue",)])], []),
+                                    ("if", [("(w0 > 3)", [("if", [("(w0 != 5)", [("continue",)])], [("write", '"five"')])])], []),
+                                    ("assign", "i0", "(i0 + w0)"), ("write", "i0")]),
+             ("write", "(i0 * 100 + w0)")], "main": None},
+    {"pre": [("assign", "i0", "0"),
+             ("for", "k0", "3", [("for", "k1", "3", [("if", [("(k1 == k0)", [("write", "k0")])], [("continue",)]), ("write", "(k0 * 10 + k1)")]),
+                                 ("if", [("(k0 == 1)", [("continue",)])], []), ("assign", "i0", "(i0 + 1)"), ("write", "(i0 + 1000)")])], "main": None},
+    {"pre": [("assign", "i0", "0")],
+     "main": [("assign", "i0", "(i0 + 1)"), ("if", [("(i0 % 2 == 0)", [("write", '"even"'), ("continue",)])], []), ("write", "i0"), ("sleep", "10")]},
+    {"pre": [("assign", "i0", "0"), ("assign", "i1", "0")],
+     "main": [("assign", "i0", "(i0 + 1)"),
+              ("for", "k0", "3", [("if", [("(k0 == 1)", [("continue",)])], []), ("write", "(i0 * 10 + k0)")]),
+              ("if", [("(i0 > 1)", [("if", [("(i0 < 4)", [("continue",)])], [("write", '"late"')])])], [("write", '"first"')]),
+              ("assign", "i1", "(i1 + 1)"), ("write", "(i1 + 500)")]},
+    {"pre": [("assign", "i0", "0")], "main": [("assign", "i0", "(i0 + 1)"), ("write", "i0"), ("continue",), ("write", '"never"')]},
+    # misplaced `continue`: rejected (ValueError), like a misplaced break
+    {"pre": [("assign", "i0", "0"), ("if", [("(i0 == 0)", [("continue",)])], [])], "main": [("write", "i0")]},
+    {"pre": [("assign", "i0", "0"), ("continue",), ("write", "i0")], "main": None},
     # first assignment inside a loop / a branch, read afterwards (promotion)
     {"pre": [("assign", "i0", "2"), ("for", "k0", "3", [("assign", "i5", "(k0 + i0)")]), ("write", "i5"),
              ("assign", "w0", "0"), ("while", "(w0 < 2)", [("assign", "i6", "(w0 * 5)"), ("assign", "w0", "(w0 + 1)")]), ("write", "i6")],
@@ -472,10 +500,44 @@ def ir_correspondence(ctx, progs, loops=None, res=None):
     return out
 
 
+def replay_fixed(ctx):
+    """repaired defects (kind "fixed") suppress nothing: their witnesses are replayed FIRST, and one that fails again is a
+    VIOLATION whose replay is the witness"""
+    fixed = [f for f in ctx.findings if f.get("kind") == "fixed" and f["id"] in WITNESSES]
+    if not fixed:
+        return 0
+    wres = run_pair([WITNESSES[f["id"]]["src"] for f in fixed], ["" for _ in fixed], [WITNESSES[f["id"]]["loops"] for f in fixed])
+    for f, r in zip(fixed, wres):
+        w = WITNESSES[f["id"]]
+        if r["status"] != "equal":
+            ctx.fail(f"repaired defect {f['id']} is back: {f['what']}",
+                     {"finding": f["id"], "script": w["src"], "input": "", "loops": w["loops"], "witness": f.get("witness")},
+                     r.get("py") or "firmware trace = CPython trace",
+                     {"status": r["status"], "first_difference": r.get("diff"), "firmware": r.get("fw"), "exc": r.get("exc"), "log": r.get("log")},
+                     key="fixed-defect-returned:" + f["id"])
+    return len(fixed)
+
+
+def count_continue(body, loop, acc):
+    """`continue` statements of a statement tree by innermost enclosing loop (for / while / main)"""
+    for st in body or []:
+        if st[0] == "continue":
+            acc[loop or "outside-any-loop"] += 1
+        elif st[0] == "if":
+            for _, b in st[1]:
+                count_continue(b, loop, acc)
+            count_continue(st[2], loop, acc)
+        elif st[0] in ("while", "for"):
+            count_continue(st[-1], st[0], acc)
+
+
 def run_unit(ctx: C.Ctx):
     rng = ctx.rng
     thorough = ctx.tier == "thorough"
-    n = 900 if thorough else 120
+    n_fixed = getattr(ctx, "c01_fixed_replayed", None)
+    if n_fixed is None:
+        n_fixed = replay_fixed(ctx)
+    n = 1200 if thorough else 160
     progs, feats = [], []
     for cp in CORPUS:
         progs.append({"funcs": [], "pre": list(cp["pre"]), "main": cp["main"], "input": "ar 14 300\nar 15 2\ndr 4 1\n"})
@@ -484,6 +546,11 @@ def run_unit(ctx: C.Ctx):
         f = FEATURE_SETS[i % len(FEATURE_SETS)]
         g = progen.Gen(rng, f)
         p = g.program(with_main=rng.random() < 0.8)
+        for _ in range(6):          # a program of a `continue` feature set contains at least one `continue`
+            if "continue" not in f or sum(p["n_continue"].values()) > 0:
+                break
+            g = progen.Gen(rng, f)
+            p = g.program(with_main=True)
         p["input"] = gen_inputs(rng, force_const="branch_first" in f)     # these are always run through the models too
         progs.append(p)
         feats.append(f)
@@ -540,12 +607,24 @@ def run_unit(ctx: C.Ctx):
                 count(st[2])
             elif st[0] in ("while", "for"):
                 count(st[-1])
-    for p in progs:
+    conts = collections.Counter()
+    cont_progs = collections.Counter()
+    for p, r in zip(progs, res):
         count(p["pre"])
         count(p["main"])
+        acc = collections.Counter()
+        count_continue(p["pre"], None, acc)
+        count_continue(p["main"], "main", acc)
+        for fn in p.get("funcs") or []:
+            count_continue(fn[2], None, acc)
+        conts.update(acc)
+        if acc:
+            cont_progs[r["status"]] += 1
     distribution = {"statement_kinds": dict(kinds), "feature_sets": dict(collections.Counter("+".join(f) or "core" for f in feats)),
                     "loop_passes": dict(collections.Counter(loops)), "with_main_loop": sum(1 for p in progs if p["main"] is not None),
-                    "constant_inputs": sum(1 for p in progs if len(const_inputs(p["input"])) == 3)}
+                    "constant_inputs": sum(1 for p in progs if len(const_inputs(p["input"])) == 3),
+                    "continue_by_innermost_loop": dict(conts), "programs_with_continue_by_status": dict(cont_progs),
+                    "fixed_witnesses_replayed_first": n_fixed}
     ctx.coverage.setdefault("distribution", {})["C01_stmt"] = distribution
     ctx.assumptions += [
         "C01_stmt_preserve_partial is proved modulo a shared opaque expression semantics and assumes SemFacts.sem_facts: the type label the parser infers for an expression is the type of its value (expression layer / C02); it is about the IR semantics Lang.StmtSem.cexec, which is tied to the emitted C++ only by the executable correspondence (extracted transl+cexec vs firmware trace)",
@@ -553,10 +632,10 @@ def run_unit(ctx: C.Ctx):
     return {
         "distribution": distribution, "outside_guard_samples": outside[:3],
         "theorems": "C01_no_silent_drop, C01_break_guard (all programs transl accepts); C01_stmt_preserve_partial (simulation inside StmtGuard.guard_ok, modulo the shared expression semantics + SemFacts.sem_facts); C01_stmt_{range_bound,retype,promotion_reinit,loop_local_reinit}_refuted (witnesses = listed findings)",
-        "guard": "StmtGuard.guard_ok: every variable first assigned at top level of the setup part (global) or at top level of the `while True:` body before any read in that body (loop() local); later assignments keep the type label; tuple assignment only as the declaration of distinct new names at top level of the setup part; range() bound int-labelled, independent of the loop variable and of names the body assigns; loop variables fresh, unassigned, read only inside their loop; consistent expression ids.  Oracle guard (dynamic): no computed int leaves 32 bits (CPython run with every expression instrumented); a script whose deviation the extracted model itself predicts (outside guard_ok) is not blamed; no `continue`",
-        "unmodelled": ["helper functions, lists, try/except, device objects (firmware-vs-CPython oracle only)", "tuple swaps (temporaries) and hoisting (promotion) are in Lang.Transl and in the executable correspondence, but outside the simulation theorem's guard", "expression translation (unit C01_expr): the simulation is modulo a shared opaque expression semantics", "16-bit int of a real AVR"],
+        "guard": "StmtGuard.guard_ok: every variable first assigned at top level of the setup part (global) or at top level of the `while True:` body before any read in that body (loop() local); later assignments keep the type label; tuple assignment only as the declaration of distinct new names at top level of the setup part; range() bound int-labelled, independent of the loop variable and of names the body assigns; loop variables fresh, unassigned, read only inside their loop; consistent expression ids.  Oracle guard (dynamic): no computed int leaves 32 bits (CPython run with every expression instrumented); a script whose deviation the extracted model itself predicts (outside guard_ok) is not blamed.  `continue` is inside the oracle's domain since the repair of the parser (programs with `continue` in for / while loops, under nested ifs and in the body of the main loop are generated and compared trace against trace) but OUTSIDE the Coq statement fragment: no theorem speaks about it",
+        "unmodelled": ["helper functions, lists, try/except, device objects (firmware-vs-CPython oracle only)", "`continue`: Lang/StmtAst.v has no constructor for it (a stated limit of the proved fragment); its translation (ContinueStmt -> `continue;`, at main-loop level -> `return;`, misplaced -> ValueError) is covered by the firmware-vs-CPython trace oracle and by C07's dispatch table only", "tuple swaps (temporaries) and hoisting (promotion) are in Lang.Transl and in the executable correspondence, but outside the simulation theorem's guard", "expression translation (unit C01_expr): the simulation is modulo a shared opaque expression semantics", "16-bit int of a real AVR"],
         "evaluations": len(progs) + len(lsrcs) + ir["ir_cases"] + ir.get("exec_cases", 0), "list_programs_by_status": dict(lstats), "programs_by_status": dict(stats), "ir_correspondence": ir,
         "distinct_nontrivial": len({s for s, r in zip(srcs, res) if r["status"] == "equal" and len(r["py"]) >= 3}),
         "samples": [srcs[0][len(progen.HEADER):], srcs[-1][len(progen.HEADER):]],
-        "rule": "10 hand-written boundary programs (break guard, nested break, empty range, elif chain, shadowing loop variable, tuple declarations reading re-assigned variables, promotion out of for/while/if) + seeded programs from harness/progen.py over 6 feature sets (core ints; +floats; +helper functions; +tuple/swap; all; first assignment inside branches), N in 0..3 loop passes, scripted analog/digital inputs (half of them constant per pin); every program: firmware trace vs CPython trace (oracle); programs without helper functions: IR of Lang.Transl.transl vs IR of the real parser; those with constant inputs additionally: extracted pexec vs CPython trace and extracted transl+cexec vs firmware trace (Lang.StmtExec), and the number of them inside the guard of C01_stmt_preserve_partial is recorded; non-trivial = both sides ran and the common trace has >= 3 events",
+        "rule": "the witnesses of repaired defects first (F-C01-continue-dropped), then 19 hand-written boundary programs (break guard, nested break, empty range, elif chain, shadowing loop variable, tuple declarations reading re-assigned variables, promotion out of for/while/if; `continue` in for-range, in while, under nested ifs, in an else arm, in the inner of two loops, in the main loop body directly / under nested ifs / inside a for loop of the main loop, unconditional with dead code after it, misplaced = rejected) + seeded programs from harness/progen.py over 8 feature sets (core ints; +floats; +helper functions; +tuple/swap; all; first assignment inside branches; `continue`; `continue` + all), N in 0..3 loop passes, scripted analog/digital inputs (half of them constant per pin); every program: firmware trace vs CPython trace (oracle); programs without helper functions: IR of Lang.Transl.transl vs IR of the real parser; those with constant inputs additionally: extracted pexec vs CPython trace and extracted transl+cexec vs firmware trace (Lang.StmtExec), and the number of them inside the guard of C01_stmt_preserve_partial is recorded; non-trivial = both sides ran and the common trace has >= 3 events",
     }
